@@ -68,6 +68,14 @@ type violation struct {
 	Case  any    `json:"case"`
 	Count int    `json:"count"`
 	Order int64  `json:"order"`
+	// further failing cases of the same class: re-executed when the representative does not reproduce (a class can mix
+	// deterministic cases with timing-dependent ones; one unlucky representative must not silence the class)
+	alts []altCase
+}
+
+type altCase struct {
+	Case any
+	What string
 }
 
 type knownFinding struct {
@@ -184,7 +192,13 @@ func (c *Ctx) Violation(f *Fail, cas any, order int64) {
 	}
 	v.Count++
 	if order < v.Order {
+		v.alts = append(v.alts, altCase{v.Case, v.What})
 		v.Order, v.Case, v.What = order, cas, f.What
+	} else if len(v.alts) < 6 {
+		v.alts = append(v.alts, altCase{cas, f.What})
+	}
+	if len(v.alts) > 6 {
+		v.alts = v.alts[len(v.alts)-6:]
 	}
 }
 
@@ -205,11 +219,13 @@ func (c *Ctx) Finish(recheck func(caseJSON []byte) *Fail) int {
 	vdir := filepath.Join(Root(), "violations")
 	for _, k := range keys {
 		v := c.viol[k]
-		raw, _ := json.MarshalIndent(map[string]any{"property": c.Prop, "key": v.Key, "what": v.What, "case": v.Case}, "", " ")
-		caseRaw, _ := json.Marshal(v.Case)
-		// re-execute 5x
-		fails := 0
-		if recheck != nil {
+		// re-execute 5x; when the representative does not reproduce every time, try the other recorded cases of the class
+		reexec := func(cas any) int {
+			caseRaw, _ := json.Marshal(cas)
+			fails := 0
+			if recheck == nil {
+				return 5
+			}
 			for i := 0; i < 5; i++ {
 				if strings.HasPrefix(v.Key, "hang") && i > 0 {
 					fails++ // a whole-system hang costs its full time-out: re-executed once
@@ -237,9 +253,18 @@ func (c *Ctx) Finish(recheck func(caseJSON []byte) *Fail) int {
 					fails++
 				}
 			}
-		} else {
-			fails = 5
+			return fails
 		}
+		fails := reexec(v.Case)
+		for _, a := range v.alts {
+			if fails == 5 || ((strings.HasPrefix(v.Key, "hang") || strings.HasSuffix(v.Key, ":hang")) && fails >= 4) {
+				break
+			}
+			if n := reexec(a.Case); n > fails {
+				fails, v.Case, v.What = n, a.Case, a.What
+			}
+		}
+		raw, _ := json.MarshalIndent(map[string]any{"property": c.Prop, "key": v.Key, "what": v.What, "case": v.Case}, "", " ")
 		if fails == 0 {
 			unreproduced = append(unreproduced, map[string]any{"key": v.Key, "what": v.What, "case": v.Case})
 			fmt.Printf("UNREPRODUCED property=%s key=%s (0/5 on re-execution; recorded in evidence, not a verdict)\n", c.Prop, v.Key)
